@@ -31,7 +31,7 @@ def history_clause(ctx: Ctx):
     k = 0
     for l in open(logp):
         o = json.loads(l)
-        ctx.evaluations += len(o.get("obs", []))
+        ctx.evaluations += len(o.get("obs", [])) + (40 * len(o.get("conc", [])) if isinstance(o.get("conc"), list) else 0)
         ctx.nontrivial.add(casehash(o["c"]))
         k += 1
         if k in (1, n // 2):
